@@ -90,11 +90,21 @@ type Interp struct {
 	MaxDepth  int
 	// TraceStores enables the Stores log (off by default: cost).
 	TraceStores bool
+	// LoopHavoc lets functions with loops be interpreted once per block with back
+	// edges dropped: at a loop header the loop-carried phis and every heap cell
+	// written inside the loop become unknown, so the body is analysed for an
+	// arbitrary iteration. Run with CallFix until the set of written cells is stable.
+	LoopHavoc   bool
+	loopWritten map[*ssa.BasicBlock]map[string]bool
+	loopChanged bool
+	curLoops    []*ssa.BasicBlock
 	// UnrollLoops lets functions with loops be interpreted along their single
 	// feasible path, provided every branch inside is decided (counted loops with
 	// constant bounds); an undecided branch makes the run imprecise.
 	UnrollLoops bool
 	MaxPathSteps int
+	// TraceReturns records every reachable return with the guards in force.
+	TraceReturns bool
 	// TraceDyn records loads and stores through non-constant indices as events
 	// (and accepts such stores without modelling their effect).
 	TraceDyn bool
@@ -145,6 +155,15 @@ func (ip *Interp) Imprecise(why string) {
 	ip.Imprec = append(ip.Imprec, fn+why)
 }
 
+// havocVal is an unknown value of type t with an identity.
+func (ip *Interp) havocVal(name string, t types.Type) Val {
+	switch t.Underlying().(type) {
+	case *types.Struct, *types.Array:
+		return ip.topOf(t, name)
+	}
+	return ip.entry(name, t)
+}
+
 func (ip *Interp) CurFn() *ssa.Function { return ip.curFn() }
 
 // GuardInfo is one undecided branch outcome known to hold at a program point.
@@ -176,6 +195,9 @@ func (ip *Interp) GuardList(st *State) []GuardInfo {
 	}
 	return out
 }
+
+// GuardListOf returns the guards recorded with an event.
+func (ip *Interp) GuardListOf(ev Event) []GuardInfo { return ev.GuardL }
 
 // Guards returns the undecided branch conditions (key -> outcome) known to hold at
 // the current point of the innermost activation.
@@ -268,6 +290,71 @@ func topoOrder(fn *ssa.Function) (order []*ssa.BasicBlock, ok bool) {
 	return
 }
 
+// topoOrderCut orders the blocks ignoring back edges (edges to a dominator) and
+// returns the loop headers with their natural loop bodies.
+func topoOrderCut(fn *ssa.Function) (order []*ssa.BasicBlock, loops map[*ssa.BasicBlock]map[*ssa.BasicBlock]bool) {
+	loops = map[*ssa.BasicBlock]map[*ssa.BasicBlock]bool{}
+	for _, b := range fn.Blocks {
+		for _, s := range b.Succs {
+			if s.Dominates(b) {
+				body := loops[s]
+				if body == nil {
+					body = map[*ssa.BasicBlock]bool{s: true}
+					loops[s] = body
+				}
+				stack := []*ssa.BasicBlock{b}
+				for len(stack) > 0 {
+					n := stack[len(stack)-1]
+					stack = stack[:len(stack)-1]
+					if body[n] {
+						continue
+					}
+					body[n] = true
+					stack = append(stack, n.Preds...)
+				}
+			}
+		}
+	}
+	state := map[*ssa.BasicBlock]int{}
+	var visit func(b *ssa.BasicBlock)
+	visit = func(b *ssa.BasicBlock) {
+		state[b] = 1
+		for _, s := range b.Succs {
+			if s.Dominates(b) {
+				continue
+			}
+			if state[s] == 0 {
+				visit(s)
+			}
+		}
+		state[b] = 2
+		order = append(order, b)
+	}
+	visit(fn.Blocks[0])
+	for i, j := 0, len(order)-1; i < j; i, j = i+1, j-1 {
+		order[i], order[j] = order[j], order[i]
+	}
+	return
+}
+
+// CallFix runs Call in LoopHavoc mode until the set of cells written inside loops is
+// stable, and returns the results of the last run.
+func (ip *Interp) CallFix(fn *ssa.Function, mkArgs func() ([]Val, *State)) (Val, *State) {
+	ip.LoopHavoc = true
+	ip.loopWritten = map[*ssa.BasicBlock]map[string]bool{}
+	for i := 0; i < 8; i++ {
+		ip.Reset()
+		ip.loopChanged = false
+		args, st := mkArgs()
+		res, out := ip.Call(fn, args, nil, st)
+		if !ip.loopChanged {
+			return res, out
+		}
+	}
+	ip.Imprecise("loop-written cells did not stabilise in " + fn.String())
+	return nil, nil
+}
+
 // IsAcyclic reports whether fn can be interpreted by this engine.
 func IsAcyclic(fn *ssa.Function) bool {
 	if fn == nil || len(fn.Blocks) == 0 {
@@ -295,6 +382,12 @@ func (ip *Interp) Call(fn *ssa.Function, args []Val, bind []Val, st *State) (res
 		}
 	}
 	order, ok := topoOrder(fn)
+	var loopBodies map[*ssa.BasicBlock]map[*ssa.BasicBlock]bool
+	if !ok && ip.LoopHavoc {
+		order, loopBodies = topoOrderCut(fn)
+		ok = true
+	}
+	outerLoops := ip.curLoops
 	if !ok {
 		if ip.UnrollLoops {
 			return ip.callPath(fn, args, bind, st)
@@ -313,6 +406,7 @@ func (ip *Interp) Call(fn *ssa.Function, args []Val, bind []Val, st *State) (res
 		ip.stack = ip.stack[:len(ip.stack)-1]
 		ip.acts = ip.acts[:len(ip.acts)-1]
 		ip.curPos = savedPos
+		ip.curLoops = outerLoops
 	}()
 
 	for i, p := range fn.Params {
@@ -343,6 +437,14 @@ func (ip *Interp) Call(fn *ssa.Function, args []Val, bind []Val, st *State) (res
 		}
 		ip.LiveBlock[b] = true
 		ip.gate, ip.gateExact, ip.gateSwap = "", false, false
+		if loopBodies != nil {
+			ip.curLoops = append([]*ssa.BasicBlock(nil), outerLoops...)
+			for h, body := range loopBodies {
+				if body[b] {
+					ip.curLoops = append(ip.curLoops, h)
+				}
+			}
+		}
 		var tree *mnode
 		if len(in) > 1 {
 			idxs := make([]int, len(in))
@@ -376,6 +478,25 @@ func (ip *Interp) Call(fn *ssa.Function, args []Val, bind []Val, st *State) (res
 			})
 		}
 		ip.gate, ip.gateExact, ip.gateSwap = "", false, false
+		if loopBodies != nil && loopBodies[b] != nil {
+			// loop header: forget loop-carried values and cells written in the loop
+			if cur == in[0].st {
+				cur = cur.fork()
+			}
+			for _, instr := range b.Instrs {
+				phi, ok := instr.(*ssa.Phi)
+				if !ok {
+					break
+				}
+				ip.fresh++
+				act.env[phi] = ip.havocVal(fmt.Sprintf("loopvar:%s.%s.%s", fn.Name(), phi.Name(), phi.Comment), phi.Type())
+			}
+			for k := range ip.loopWritten[b] {
+				if li, ok := ip.locs[k]; ok {
+					cur.Heap.set(k, ip.havocVal("loopcell:"+li.obj.Name+PathKey(li.path), li.t))
+				}
+			}
+		}
 		live := true
 		for _, instr := range b.Instrs {
 			if _, ok := instr.(*ssa.Phi); ok {
@@ -402,7 +523,9 @@ func (ip *Interp) Call(fn *ssa.Function, args []Val, bind []Val, st *State) (res
 						s = cur.fork()
 						ip.refineEdge(act, s, t.Cond, cb, true)
 					}
-					ins[b.Succs[0]] = append(ins[b.Succs[0]], edgeIn{b, s})
+					if !(loopBodies != nil && b.Succs[0].Dominates(b)) {
+						ins[b.Succs[0]] = append(ins[b.Succs[0]], edgeIn{b, s})
+					}
 				}
 				if k != TriT {
 					s := cur
@@ -410,11 +533,15 @@ func (ip *Interp) Call(fn *ssa.Function, args []Val, bind []Val, st *State) (res
 						s = cur.fork()
 						ip.refineEdge(act, s, t.Cond, cb, false)
 					}
-					ins[b.Succs[1]] = append(ins[b.Succs[1]], edgeIn{b, s})
+					if !(loopBodies != nil && b.Succs[1].Dominates(b)) {
+						ins[b.Succs[1]] = append(ins[b.Succs[1]], edgeIn{b, s})
+					}
 				}
 				live = false
 			case *ssa.Jump:
-				ins[b.Succs[0]] = append(ins[b.Succs[0]], edgeIn{b, cur})
+				if !(loopBodies != nil && b.Succs[0].Dominates(b)) {
+					ins[b.Succs[0]] = append(ins[b.Succs[0]], edgeIn{b, cur})
+				}
 				live = false
 			case *ssa.Return:
 				var rv Val
@@ -428,6 +555,9 @@ func (ip *Interp) Call(fn *ssa.Function, args []Val, bind []Val, st *State) (res
 						tp.E = append(tp.E, ip.get(act, cur, r))
 					}
 					rv = tp
+				}
+				if ip.TraceReturns {
+					ip.event(Event{Kind: "return", Args: []Val{rv}, Instr: t, GuardL: ip.GuardList(cur), Guards: ip.Guards(cur)})
 				}
 				retVals = append(retVals, rv)
 				retStates = append(retStates, &State{Heap: cur.Heap})
@@ -986,7 +1116,26 @@ func (ip *Interp) step(act *activation, st *State, instr ssa.Instruction) bool {
 			return false
 		}
 		act.env[t] = res
-	case *ssa.SliceToArrayPointer, *ssa.MultiConvert, *ssa.Range, *ssa.Next, *ssa.Select, *ssa.Send, *ssa.Go, *ssa.Defer, *ssa.RunDefers, *ssa.MakeChan:
+	case *ssa.Range:
+		ip.fresh++
+		act.env[t] = &Top{T: t.Type(), Key: fmt.Sprintf("range#%d(%s)", ip.fresh, ValKey(ip.get(act, st, t.X)))}
+	case *ssa.Next:
+		it := ip.get(act, st, t.Iter)
+		tt := t.Type().(*types.Tuple)
+		ip.fresh++
+		base := fmt.Sprintf("next#%d", ip.fresh)
+		tp := &Tuple{E: []Val{&Bool{K: TriTop, Key: base + ".ok"}}}
+		for i := 1; i < tt.Len(); i++ {
+			et := tt.At(i).Type()
+			if b, ok := et.Underlying().(*types.Basic); ok && b.Kind() == types.Invalid {
+				tp.E = append(tp.E, &Top{})
+				continue
+			}
+			tp.E = append(tp.E, ip.havocVal(fmt.Sprintf("%s.%d", base, i), et))
+		}
+		_ = it
+		act.env[t] = tp
+	case *ssa.SliceToArrayPointer, *ssa.MultiConvert, *ssa.Select, *ssa.Send, *ssa.Go, *ssa.Defer, *ssa.RunDefers, *ssa.MakeChan:
 		ip.Imprecise(fmt.Sprintf("unsupported instruction %T", instr))
 		if v, ok := instr.(ssa.Value); ok {
 			act.env[v] = ip.topOf(v.Type(), "unsupported")
@@ -1373,7 +1522,12 @@ func (ip *Interp) call(act *activation, st *State, site ssa.CallInstruction, c *
 		if resT.Len() == 0 {
 			return nil
 		}
-		return ip.topOf(resType, why)
+		v := ip.topOf(resType, why)
+		if tp, ok := v.(*Top); ok && tp.Key == "" {
+			ip.fresh++
+			tp.Key = fmt.Sprintf("%s#%d", why, ip.fresh)
+		}
+		return v
 	}
 	if c.IsInvoke() {
 		recv := ip.get(act, st, c.Value)
@@ -1483,7 +1637,7 @@ func (ip *Interp) callFunc(st *State, site ssa.CallInstruction, fn *ssa.Function
 		return res, true
 	}
 	name := fn.String()
-	ev := ip.event(Event{Kind: "ext-call", Callee: name, Args: args, Instr: site, Guards: ip.Guards(st)})
+	ev := ip.event(Event{Kind: "ext-call", Callee: name, Args: args, Instr: site, Guards: ip.Guards(st), GuardL: ip.GuardList(st)})
 	if ip.Hooks.ExtCall != nil {
 		if res, ok := ip.Hooks.ExtCall(ip, st, ev); ok {
 			ev.Result = res
@@ -1595,7 +1749,21 @@ func (ip *Interp) builtin(act *activation, st *State, site ssa.CallInstruction, 
 		}
 		return r, true
 	case "append":
-		ev := ip.event(Event{Kind: "append", Args: args, Instr: site})
+		// list the appended elements when they are a small literal group
+		evArgs := args
+		if len(args) == 2 {
+			if sl, ok := args[1].(*Slice); ok && sl.Base.Obj != nil {
+				n, ok1 := sl.Len.IsConst()
+				off, ok2 := sl.Off.IsConst()
+				if ok1 && ok2 && n <= 8 {
+					evArgs = []Val{args[0]}
+					for i := uint64(0); i < n; i++ {
+						evArgs = append(evArgs, ip.Load(st, &Ptr{Obj: sl.Base.Obj, Path: appendSel(sl.Base.Path, Sel{Field: -1, Index: int(off + i)})}, sl.ElemT))
+					}
+				}
+			}
+		}
+		ev := ip.event(Event{Kind: "append", Args: evArgs, Instr: site, GuardL: ip.GuardList(st)})
 		res := ip.topOf(c.Signature().Results().At(0).Type(), "append")
 		if s, ok := res.(*Slice); ok {
 			s.Nil = TriTop
